@@ -75,6 +75,25 @@ func buildFS(c lib.Case) (billy.Filesystem, map[string]bool) {
 	return fs, has
 }
 
+// materialize creates the queried directories and files in fs
+func materialize(fs billy.Filesystem, c lib.Case) {
+	for _, q := range c.L("queries") {
+		qc := lib.AsCase(q)
+		path := comps(qc.SL("path"))
+		p := strings.Join(path, "/")
+		if qc.Bool("isdir") {
+			_ = fs.MkdirAll(p, 0o755)
+		} else {
+			if len(path) > 1 {
+				_ = fs.MkdirAll(strings.Join(path[:len(path)-1], "/"), 0o755)
+			}
+			if _, err := fs.Stat(p); err != nil {
+				_ = util.WriteFile(fs, p, nil, 0o644)
+			}
+		}
+	}
+}
+
 // decider names the pattern that decides path (classification aid only, not a
 // compared observable): the last pattern whose Match is not NoMatch.  With
 // onlyExclude it is reported only when it excludes (a Descend step).
@@ -163,24 +182,25 @@ func main() {
 				why = append(why, by)
 				res = append(res, lib.Bool(scope.Match(path, qc.Bool("isdir"))))
 			}
-			return lib.Ok(res...), why
+			// the deprecated flat API on the same tree (an uncompared observable for the oracle):
+			// NewMatcher(ReadPatterns(fs, nil)).Match
+			extra := map[string]any{"why": why}
+			materialize(fs, c)
+			if ps, err := gitignore.ReadPatterns(fs, nil); err == nil {
+				m := gitignore.NewMatcher(ps)
+				var flat []bool
+				for _, q := range c.L("queries") {
+					qc := lib.AsCase(q)
+					flat = append(flat, m.Match(comps(qc.SL("path")), qc.Bool("isdir")))
+				}
+				extra["flat"] = flat
+			} else {
+				extra["flat_err"] = err.Error()
+			}
+			return lib.Ok(res...), extra
 		case "flat":
 			fs, _ := buildFS(c)
-			for _, q := range c.L("queries") {
-				qc := lib.AsCase(q)
-				path := comps(qc.SL("path"))
-				p := strings.Join(path, "/")
-				if qc.Bool("isdir") {
-					_ = fs.MkdirAll(p, 0o755)
-				} else {
-					if len(path) > 1 {
-						_ = fs.MkdirAll(strings.Join(path[:len(path)-1], "/"), 0o755)
-					}
-					if _, err := fs.Stat(p); err != nil {
-						_ = util.WriteFile(fs, p, nil, 0o644)
-					}
-				}
-			}
+			materialize(fs, c)
 			ps, err := gitignore.ReadPatterns(fs, nil)
 			if err != nil {
 				return lib.Err("read"), nil
